@@ -29,3 +29,28 @@ Proof. intros H c I. apply a64_case_ok_sound. exact (proj1 (forallb_forall _ _) 
 
 Lemma a64_cases_bad_list T l : forallb (fun c => negb (a64_case_ok T c)) l = true -> forall c, In c l -> a64_case_ok T c = false.
 Proof. intros H c I. apply negb_true_iff. exact (proj1 (forallb_forall _ _) H c I). Qed.
+
+Lemma all2b_Forall2 {A B} (f : A -> B -> bool) (P : A -> B -> Prop) :
+  (forall a b, f a b = true -> P a b) -> forall la lb, all2b f la lb = true -> Forall2 P la lb.
+Proof.
+  intros H la. induction la as [|a ra IH]; intros [|b rb] E; simpl in E; try discriminate.
+  - constructor.
+  - apply andb_true_iff in E as [E1 E2]. constructor; auto.
+Qed.
+
+Lemma access_ok_sound a o : access_ok a o = true ->
+  (fst a = true -> N.land (o_flags o) fR <> 0) /\ (snd a = true -> N.land (o_flags o) fW <> 0).
+Proof.
+  unfold access_ok. intros H. apply andb_true_iff in H as [H1 H2]. split; intros E.
+  - rewrite E in H1. simpl in H1. unfold test in H1. apply negb_true_iff, N.eqb_neq in H1. exact H1.
+  - rewrite E in H2. simpl in H2. unfold test in H2. apply negb_true_iff, N.eqb_neq in H2. exact H2.
+Qed.
+
+Lemma a64_access_ok_list T l : forallb (a64_case_ok T) l = true ->
+  forall c, In c l -> exists out, a64_query_rw_info T (ac_id c) (ac_ops c) = Some out /\ access_reported (ac_access c) (i_ops out).
+Proof.
+  intros H c I. pose proof (proj1 (forallb_forall _ _) H c I) as G. unfold a64_case_ok in G.
+  destruct (a64_query_rw_info T (ac_id c) (ac_ops c)) as [out|]; [|discriminate].
+  apply andb_true_iff in G as [_ G]. exists out. split; [reflexivity|].
+  unfold access_reported. eapply all2b_Forall2; [|exact G]. intros a o; apply access_ok_sound.
+Qed.
